@@ -931,6 +931,8 @@ func runC08(p *Prog, r *Report) {
 	ruleOrder(p, r)
 	r.Explain = append(r.Explain, "R-TRIM: the run whose end glyph is trimmed as trailing whitespace is selected by comparing VisualIndex values.")
 	ruleTrim(p, r)
+	r.Explain = append(r.Explain, "R-TRIM/fast: the line built by the single run shortcut of WrapParagraph (wrapBuffer.singleRunParagraph, the only line constructor outside WrapNextLine) is returned only after a call from which the trimming store is reachable, on every path that does not take the edge where WrapConfig.DisableTrailingWhitespaceTrim is set.")
+	ruleTrimFast(p, r)
 	r.Assumptions = append(r.Assumptions, "Output carries only the parity of the embedding level (Direction); x/text's bidi.Run exposes no level")
 	r.NotDecided = append(r.NotDecided, "that the order equals rule L2 of UAX #9 for the embedding levels (levels above 1 are not represented; the level-2 mis-ordering mentioned by the property is invisible to these rules)", "that the trimmed glyph is the visually last one")
 }
@@ -1066,6 +1068,87 @@ func ruleTrim(p *Prog, r *Report) {
 		return
 	}
 	r.Check(readsVis(ppl), rule, key, p.Pos(ppl.Pos()), "the run whose end glyph is trimmed is selected by comparing VisualIndex values (the visually last run), not by walking logical order or directions")
+}
+
+// ruleTrimFast — R-TRIM/fast: a line built outside WrapNextLine (wrapBuffer.singleRunParagraph, the shortcut of
+// WrapParagraph) is returned only after a call that reaches the trimming store, unless the path took the edge on which
+// WrapConfig.DisableTrailingWhitespaceTrim is set.
+func ruleTrimFast(p *Prog, r *Report) {
+	const rule = "R-TRIM/fast"
+	G := p.Named("shaping", "Glyph")
+	fDis := p.Field("shaping", "WrapConfig", "DisableTrailingWhitespaceTrim")
+	ctor := p.Func("shaping", "wrapBuffer", "singleRunParagraph")
+	// the functions from which a zero store into an advance of a glyph is reachable
+	trims := map[*ssa.Function]bool{}
+	for _, f := range p.ModFns() {
+		if fnPkg(f) == nil || fnPkg(f).Path() != p.pkgPath("shaping") || f == ctor {
+			continue
+		}
+		for fn := range reachableFns(p, []*ssa.Function{f}) {
+			found := false
+			for _, st := range storesToTypeX(fn, G, nil, false) {
+				if c, ok := st.Val.(*ssa.Const); ok && isZeroConst(c) {
+					found = true
+				}
+			}
+			if found {
+				trims[f] = true
+				break
+			}
+		}
+	}
+	n := 0
+	for _, f := range p.ModFns() {
+		if fnPkg(f) == nil || fnPkg(f).Path() != p.pkgPath("shaping") {
+			continue
+		}
+		for _, c := range callsOf(f, ctor) {
+			n++
+			key := p.FnName(f) + "/singleRunParagraph"
+			r.Instance(rule, key)
+			isTrim := func(in ssa.Instruction) bool {
+				call, ok := in.(ssa.CallInstruction)
+				if !ok {
+					return false
+				}
+				sc := call.Common().StaticCallee()
+				return sc != nil && trims[sc] && instrBlockAfter(c, in)
+			}
+			cut := func(from, to *ssa.BasicBlock) bool {
+				iff := ifOf(from)
+				if iff == nil || to != from.Succs[0] {
+					return false
+				}
+				return derivesFrom(iff.Cond, func(v ssa.Value) bool { return fieldOf(v) == fDis || isLoadOfField(v, fDis) }, 0)
+			}
+			ok := true
+			var where ssa.Instruction = c
+			var path []string
+			for _, b := range f.Blocks {
+				ret, isRet := b.Instrs[len(b.Instrs)-1].(*ssa.Return)
+				if !isRet || len(ret.Results) == 0 {
+					continue
+				}
+				if !derivesFromAgg(ret.Results[0], func(v ssa.Value) bool { return v == ssa.Value(c) }) {
+					continue
+				}
+				where = ret
+				if good, pth := mustPrecede(p, f, ret, isTrim, cut); !good {
+					ok, path = false, pth
+				}
+			}
+			r.Check(ok, rule, key, p.IPos(where), "the line built by the single run shortcut is returned only after the trailing whitespace trim (or with the trim disabled)", path...)
+		}
+	}
+	r.Floor(rule, n, 1)
+}
+
+// instrBlockAfter: b is not before a in the same block (b in another block, or later in a's block).
+func instrBlockAfter(a, b ssa.Instruction) bool {
+	if a.Block() != b.Block() {
+		return true
+	}
+	return instrIndex(b) > instrIndex(a)
 }
 
 // ---- C12 ---------------------------------------------------------------------------------------------------------
